@@ -399,16 +399,16 @@ Definition req_checked (usr : bool) (r : rtype) (l : list (name * option name)) 
   else map a_name (filter (fun a => a_req a && listed l (a_name a) && negb (allocated (a_ty a))) (r_attrs r)).
 
 (* the validator the generated code calls for an attribute: result types and collections
-   listed by a result type validate under their own view; below an array or a plain user type
-   the validation code is view-blind: Validate<T>View, the default-view one; the values of a
-   map are not validated at all *)
+   listed by a result type validate under their own view; below an array, a map or a plain
+   user type the validation code is view-blind: Validate<T>View, the default-view one (map
+   values are validated since the recurseValidationCode repair of property C04) *)
 Definition vtarget (usr : bool) (v : name) (ov : option name) (a : attr) : option nkey :=
   match a_ty a with
   | TLeaf _ => None
   | TRes t => Some (false, t, if usr then "default" else nested_view ov a)
   | TColl t => Some (false, t, if usr then "default" else nested_view ov a)
   | TArr t => Some (false, t, "default")
-  | TMap t => None
+  | TMap t => Some (false, t, "default")
   | TUser u => Some (true, u, v)
   end.
 
